@@ -1128,6 +1128,11 @@ func (tr *Translator) useInstance(u *Clause) (out []string) {
 		if a.t.Sort == "Nil" {
 			a, _ = tr.coerceNil(a, tv{tr.f.enc.zero(tr.f.p.sortOf(pt)), pt})
 		}
+		if a.t.Sort != tr.f.p.sortOf(pt) {
+			// the name resolved to a different variable of the same name at this program point (e.g. a boxed copy):
+			// this instance does not apply here
+			tr.fail("argument %d of %s has sort %s, want %s", i, lm.Name, a.t.Sort, tr.f.p.sortOf(pt))
+		}
 		a.ty = pt
 		nb[p.Name] = a
 	}
